@@ -55,6 +55,7 @@ type PGroup struct {
 	Dense *PDense
 	Ways  []PWay
 	Rels  []PRel
+	Seq   string // order of the ways (W) and relations (R) on the wire; "" = all ways, then all relations
 }
 
 type PBlock struct {
@@ -162,7 +163,8 @@ func (f *PFile) Tokens() string {
 				optCol(&b, "sid", d.SID)
 				optCol(&b, "vis", d.Vis)
 			}
-			for _, w := range g.Ways {
+			g := g
+			tokWay := func(w PWay) {
 				fmt.Fprintf(&b, " W id=%d", w.ID)
 				optCol(&b, "keys", w.Keys)
 				optCol(&b, "vals", w.Vals)
@@ -171,7 +173,7 @@ func (f *PFile) Tokens() string {
 				optCol(&b, "lat", w.Lat)
 				optCol(&b, "lon", w.Lon)
 			}
-			for _, r := range g.Rels {
+			tokRel := func(r PRel) {
 				fmt.Fprintf(&b, " R id=%d", r.ID)
 				optCol(&b, "keys", r.Keys)
 				optCol(&b, "vals", r.Vals)
@@ -179,6 +181,13 @@ func (f *PFile) Tokens() string {
 				optCol(&b, "roles", r.Roles)
 				optCol(&b, "memids", r.MemIDs)
 				optCol(&b, "types", r.Types)
+			}
+			for _, el := range g.order() {
+				if el[0] == 0 {
+					tokWay(g.Ways[el[1]])
+				} else {
+					tokRel(g.Rels[el[1]])
+				}
 			}
 		}
 	}
@@ -241,12 +250,14 @@ func ParsePFile(toks []string) (*PFile, error) {
 			kind = "D"
 			continue
 		case "W":
+			g.Seq += "W"
 			g.Ways = append(g.Ways, PWay{})
 			w = &g.Ways[len(g.Ways)-1]
 			info = nil
 			kind = "W"
 			continue
 		case "R":
+			g.Seq += "R"
 			g.Rels = append(g.Rels, PRel{})
 			r = &g.Rels[len(g.Rels)-1]
 			info = nil
@@ -466,6 +477,28 @@ func ordered(rev bool, parts ...func()) {
 	}
 }
 
+// order lists the group's ways and relations in wire order: (false, i) = Ways[i], (true, i) = Rels[i]
+func (g *PGroup) order() [][2]int {
+	var out [][2]int
+	wi, ri := 0, 0
+	for _, c := range g.Seq {
+		if c == 'W' && wi < len(g.Ways) {
+			out = append(out, [2]int{0, wi})
+			wi++
+		} else if c == 'R' && ri < len(g.Rels) {
+			out = append(out, [2]int{1, ri})
+			ri++
+		}
+	}
+	for ; wi < len(g.Ways); wi++ {
+		out = append(out, [2]int{0, wi})
+	}
+	for ; ri < len(g.Rels); ri++ {
+		out = append(out, [2]int{1, ri})
+	}
+	return out
+}
+
 func (bl *PBlock) primitiveBlock() []byte {
 	var p pbw
 	st := func() {
@@ -516,8 +549,8 @@ func (bl *PBlock) primitiveBlock() []byte {
 					func() { dp.Packed(10, d.KV, false) })
 				gp.Bytes(2, dp.b)
 			}
-			for _, w := range g.Ways {
-				w := w
+			g := g
+			writeWay := func(w PWay) {
 				var wp pbw
 				ordered(bl.Lay&8 != 0,
 					func() { wp.Int(1, w.ID) },
@@ -531,8 +564,7 @@ func (bl *PBlock) primitiveBlock() []byte {
 					func() { wp.Packed(8, w.Refs, true); wp.Packed(9, w.Lat, true); wp.Packed(10, w.Lon, true) })
 				gp.Bytes(3, wp.b)
 			}
-			for _, r := range g.Rels {
-				r := r
+			writeRel := func(r PRel) {
 				var rp pbw
 				ordered(bl.Lay&8 != 0,
 					func() { rp.Int(1, r.ID) },
@@ -547,6 +579,13 @@ func (bl *PBlock) primitiveBlock() []byte {
 					func() { rp.Packed(9, r.MemIDs, true) },
 					func() { rp.Packed(10, r.Types, false) })
 				gp.Bytes(4, rp.b)
+			}
+			for _, el := range g.order() {
+				if el[0] == 0 {
+					writeWay(g.Ways[el[1]])
+				} else {
+					writeRel(g.Rels[el[1]])
+				}
 			}
 			p.Bytes(2, gp.b)
 		}
@@ -1005,6 +1044,15 @@ func mixGroups(r *Rng, f *PFile, maxN int) {
 				for i := 1 + r.Intn(3); i > 0; i-- {
 					gr.Rels = append(gr.Rels, g.rel())
 				}
+			}
+			if len(gr.Ways) > 0 && len(gr.Rels) > 0 && r.Bool() {
+				// ways and relations taking turns on the wire
+				seq := []byte(strings.Repeat("W", len(gr.Ways)) + strings.Repeat("R", len(gr.Rels)))
+				for i := len(seq) - 1; i > 0; i-- {
+					j := r.Intn(i + 1)
+					seq[i], seq[j] = seq[j], seq[i]
+				}
+				gr.Seq = string(seq)
 			}
 		}
 		bl.Strings = g.st
